@@ -1184,7 +1184,10 @@ def gen_layout(rng, rep, version, force_cuts=None, maxcuts=3, ptype=None):
         cuts = sorted(cuts + [rng.choice(cuts + [0])])
     npages = len(cuts) + 1
     modes = [None, None, "all", "elems", "zero"]
-    return dict(cuts=cuts, version=version, dictionary=(rng.random() < 0.5 and ptype != "boolean"),
+    use_dict = (rng.random() < 0.5 and ptype != "boolean")
+    # a chunk that starts dictionary-encoded and falls back to PLAIN pages from some page on (also page 0: dictionary page unused)
+    fallback = rng.randrange(0, npages) if (use_dict and rng.random() < 0.4) else None
+    return dict(cuts=cuts, version=version, dictionary=use_dict, dict_fallback=fallback,
                 # optional header content a reader must not let change the rows: page / chunk Statistics.null_count in three
                 # counting conventions, and per v2 page the is_compressed flag absent / true / false (mixed within a chunk)
                 page_stats=[rng.choice(modes) for _ in range(npages)], chunk_stats=rng.choice(modes),
@@ -1268,6 +1271,52 @@ def stage_files(ctx, pq, w):
                                is_compressed=flags, page_stats=["all", None, "elems"])
                     col = dict(name="c", kind="list", row_opt=True, elem_opt=True, ptype=ptype)
                     case = {"stage": "file-header-variants", "cols": [col], "rgs": [{"rows": {"c": rows}, "layout": {"c/elem": lay}}]}
+                    nfile += 1
+                    check_file_case(ctx, pq, w, case, os.path.join(ctx.scratch, "f%d.parquet" % nfile), conf_budget)
+    # ---- fixed lattice: dictionary fallback to PLAIN inside a LIST / MAP chunk x a page cut at EVERY level position ------
+    # (rows continuing from a dictionary page into a PLAIN page and the other way round never happens: fallback is one-way)
+    for ptype, kind in (("int64", "list"), ("utf8", "list"), ("int32", "map")):
+        pl = pool(ptype)
+        if kind == "list":
+            col = dict(name="c", kind="list", row_opt=True, elem_opt=True, ptype=ptype)
+            rows = [None if r is None else [None if e is None else pl[(e * 3 + 1) % len(pl)] for e in r] for r in hrows]
+        else:
+            col = dict(name="c", kind="map", row_opt=True, elem_opt=True, ptype=ptype, key_ptype="utf8")
+            rows = [None if r is None else [["k%d" % j, (None if e is None else pl[(e * 3 + 1) % len(pl)])] for j, e in enumerate(r)] for r in hrows]
+        leaves = [lf for lf in NF.leaf_columns(col)]
+        rep0 = NF.shred(NF.leaf_rows(col, leaves[0], rows), leaves[0]["row_opt"], leaves[0]["elem_opt"])[0]
+        positions = list(range(1, len(rep0)))
+        if ctx.quick() and kind == "map":
+            positions = positions[::3]
+        for version in (1, 2):
+            cand = positions if version == 1 else [p for p in row_boundaries(rep0) if 0 < p < len(rep0)]
+            for c1 in cand:
+                for cuts, fb in (([c1], 1), ([c1, min(len(rep0) - 1, c1 + 2)] if version == 1 else [c1], 1)):
+                    if len(set(cuts)) != len(cuts):
+                        continue
+                    rg = {"rows": {"c": rows}, "layout": {}}
+                    for lf in leaves:
+                        rg["layout"]["c/" + lf["which"]] = dict(cuts=list(cuts), version=version, dictionary=True, dict_fallback=fb,
+                                                                 level_style="mixed", codec=None, legacy_dict=(c1 % 2 == 0))
+                    case = {"stage": "file-dict-fallback", "cols": [col], "rgs": [rg]}
+                    nfile += 1
+                    check_file_case(ctx, pq, w, case, os.path.join(ctx.scratch, "f%d.parquet" % nfile), conf_budget)
+    # ---- fixed lattice: pages with ZERO entries (C15_empty_pages_neutral_v1/_v2, C15_pages_full_with_empty): an empty first page,
+    # an empty last page, one and two empty pages between two pages cut at EVERY level position (v1: also inside a row, so the
+    # continuation of a row follows an empty page) / every row boundary (v2); PLAIN and dictionary
+    for ptype in ("int64", "utf8"):
+        pl = pool(ptype)
+        col = dict(name="c", kind="list", row_opt=True, elem_opt=True, ptype=ptype)
+        rows = [None if r is None else [None if e is None else pl[(e * 5 + 2) % len(pl)] for e in r] for r in hrows]
+        rep0 = NF.shred(rows, True, True)[0]
+        for version in (1, 2):
+            cand = list(range(1, len(rep0))) if version == 1 else [p for p in row_boundaries(rep0) if 0 < p < len(rep0)]
+            if ctx.quick():
+                cand = cand[::2] if ptype == "utf8" else cand
+            for c1 in cand:
+                for cuts in ([c1, c1], [0, c1], [c1, len(rep0)], [c1, c1, c1]):
+                    lay = dict(cuts=list(cuts), version=version, dictionary=(c1 % 2 == 1), level_style="mixed", codec=None)
+                    case = {"stage": "file-empty-pages", "cols": [col], "rgs": [{"rows": {"c": rows}, "layout": {"c/elem": lay}}]}
                     nfile += 1
                     check_file_case(ctx, pq, w, case, os.path.join(ctx.scratch, "f%d.parquet" % nfile), conf_budget)
     # ---- random files ------------------------------------------------------------------------
